@@ -68,3 +68,15 @@ Proof. vm_compute. reflexivity. Qed.
 Example C13_example_budget :
   sl_filter [] [5; 5; 6] 3 = ([5; 6], [5; 6]) /\ sl_filter [] [5; 6] 1 = ([5], [5]).
 Proof. vm_compute. split; reflexivity. Qed.
+
+(* the bundle leaves the node and is received again from another neighbour: received from 1, relayed
+   to 2 and 3 (acknowledged), dropped (delivered directly and deleted / expired), received again from
+   3: the old list is gone, the new previous node is recorded - offered to 1 and 2, not to 3
+   (C13_no_return with h1 = everything before the second SlNew) *)
+Example C13_example_received_again :
+  match sl_run (sl_fresh None) [SlNew (Some 1); SlChoose [1; 2; 3] 3; SlOk 2; SlOk 3; SlDrop; SlNew (Some 3)] with
+  | Some s => sl_step s (SlChoose [1; 2; 3] 3)
+              = Some ({| sl_sent := [3; 1; 2]; sl_inflight := [1; 2]; sl_alive := true |}, [1; 2])
+  | None => False
+  end.
+Proof. vm_compute. reflexivity. Qed.
